@@ -409,6 +409,18 @@ def _run(ctx):
                                   {"when": label, "k": kk})
             if abs(D(back.magnitude) - D(q.magnitude)) > abs(D(q.magnitude)) * Decimal("1e-9"):
                 ctx.violation("C18:round-trip:quantity-level-quantity", f"{q} -> level -> {back!r} on a unit whose dimension was registered as root-power after it was created", {})
+    # the same questions asked by two threads at once (deterministic line scheduler, units of the scenario's own with exact
+    # ratios, the temperature scales, levels): what this property says about an answer holds for every thread's answer
+    if ctx.shard == 0:
+        from .. import concurrent_conv
+        _mon = locals().get("mon")
+        if _mon is not None:
+            _mon.paused = True
+        try:
+            concurrent_conv.section(ctx, env, trials=(36 if ctx.tier == "quick" else 600), key="C18")
+        finally:
+            if _mon is not None:
+                _mon.paused = False
     ctx.require("postconditions/level", 200)
     ctx.require("postconditions/quantify", 200)
     ctx.require("monotone_chains", 50)
